@@ -289,7 +289,10 @@ def initLoop (s : PhraseSel) (d : D) : Nat → Outcome PhraseSel
     else match rangeHasPhrase env s d s.begin_ s.end_ with
       | .ok true => .ok s
       | .ok false =>
-        if s.forward then initLoop { s with end_ := s.end_ - 1 } d fuel
+        -- `if self.end - self.begin == 1 && syllables[0].is_syllable() { break }`: a syllable without a
+        -- word keeps its one-syllable range (F02 / F03 repair; the candidate list is then empty)
+        if s.end_ - s.begin_ == 1 && (match s.com.symbol? s.begin_ with | some sym => sym.isSyl | none => false) then .ok s
+        else if s.forward then initLoop { s with end_ := s.end_ - 1 } d fuel
         else initLoop { s with begin_ := s.begin_ + 1 } d fuel
       | .panic p => .panic p
       | .outOfFuel => .outOfFuel
@@ -361,12 +364,14 @@ where
           | .panic p => .panic p
           | .outOfFuel => .outOfFuel
 
-/-- `PhraseSelector::next` (Down/Space at the last page) -/
+/-- `PhraseSelector::next` (Down/Space at the last page): `for _ in 0..self.com.len()` tries the ranges
+    in turn; when none of them has a phrase the selector stays on the range it started from (F03 repair:
+    the loop used to be unbounded) -/
 def next (s : PhraseSel) (d : D) : Outcome PhraseSel :=
-  go (2 * s.com.len + 4) s
+  go s.com.len s
 where
   go : Nat → PhraseSel → Outcome PhraseSel
-    | 0, _ => .outOfFuel
+    | 0, s' => .ok { s' with begin_ := s.begin_, end_ := s.end_ }
     | fuel + 1, s =>
       if s.forward then
         if s.end_ == 0 then .panic "sel-next-underflow"
@@ -669,6 +674,22 @@ def withCom (sh : Shared D L) (r : Outcome CompEditor) (k : Shared D L → StepR
   | .panic p => .panic p
   | .outOfFuel => .outOfFuel
 
+/-- `Selecting::candidates` -/
+def Selecting.candidates (s : Selecting) (sh : Shared D L) : Outcome (List Text) :=
+  match s.sel with
+  | .phrase p => PhraseSel.candidates env p sh.dict sh.syl
+  | .symbol y => y.menu
+  | .special sym => specialMenu sym
+
+/-- `Selecting::total_page` (`div_ceil`: divides by `candidates_per_page`, zero panics) -/
+def Selecting.totalPage (s : Selecting) (sh : Shared D L) : Outcome Nat :=
+  match Selecting.candidates env s sh with
+  | .ok cs =>
+    if sh.options.candidatesPerPage == 0 then .panic "div-ceil-zero"
+    else .ok ((cs.length + sh.options.candidatesPerPage - 1) / sh.options.candidatesPerPage)
+  | .panic p => .panic p
+  | .outOfFuel => .outOfFuel
+
 /-- `Selecting::new_phrase` -/
 def newPhrase (sh : Shared D L) : StepRes D L :=
   let com := sh.com.pushCursor.clampCursor
@@ -677,6 +698,18 @@ def newPhrase (sh : Shared D L) : StepRes D L :=
   | .ok sel => .ok (sh, .toState (.selecting { pageNo := 0, action := .replace, sel := .phrase sel }))
   | .panic p => .panic p
   | .outOfFuel => .outOfFuel
+
+/-- `Selecting::open_phrase`: `new_phrase`, but a list without candidates (a syllable the dictionary has
+    no word for) is not opened: `cancel_selecting` restores the saved cursor and the request is ignored -/
+def openPhrase (sh : Shared D L) : StepRes D L :=
+  match newPhrase env sh with
+  | .ok (sh', .toState (.selecting s)) =>
+    match Selecting.candidates env s sh' with
+    | .ok [] => .ok (Shared.cancelSelecting sh', .spin .ignore)
+    | .ok _ => .ok (sh', .toState (.selecting s))
+    | .panic p => .panic p
+    | .outOfFuel => .outOfFuel
+  | r => r
 
 /-- `Selecting::new_phrase_for_simple_engine` -/
 def newPhraseSimple (sh : Shared D L) : StepRes D L :=
@@ -703,13 +736,13 @@ def newSpecialSymbol (sh : Shared D L) (sym : Sym) : StepRes D L :=
 /-- `Entering::start_selecting` (also `EnteringSyllable::start_selecting` after clearing the syllable) -/
 def startSelecting (sh : Shared D L) : StepRes D L :=
   match sh.com.symbolForSelect with
-  | some sym => if sym.isSyl then newPhrase env sh else newSpecialSymbol sh sym
+  | some sym => if sym.isSyl then openPhrase env sh else newSpecialSymbol sh sym
   | none => .ok (sh, .spin .ignore)
 
 /-- `Entering::start_selecting_or_input_space` -/
 def startSelectingOrInputSpace (sh : Shared D L) : StepRes D L :=
   match sh.com.symbolForSelect with
-  | some sym => if sym.isSyl then newPhrase env sh else newSpecialSymbol sh sym
+  | some sym => if sym.isSyl then openPhrase env sh else newSpecialSymbol sh sym
   | none =>
     if sh.com.isEmpty then
       let ch := match sh.options.characterForm with
@@ -902,22 +935,6 @@ def enteringSyllableNext (sh : Shared D L) (ev : KeyEvent) : StepRes D L :=
     | .standard =>
       syllableAnswer env { sh with syl := (env.keyPress sh.syl ev).2 } (env.keyPress sh.syl ev).1
 
-/-- `Selecting::candidates` -/
-def Selecting.candidates (s : Selecting) (sh : Shared D L) : Outcome (List Text) :=
-  match s.sel with
-  | .phrase p => PhraseSel.candidates env p sh.dict sh.syl
-  | .symbol y => y.menu
-  | .special sym => specialMenu sym
-
-/-- `Selecting::total_page` (`div_ceil`: divides by `candidates_per_page`, zero panics) -/
-def Selecting.totalPage (s : Selecting) (sh : Shared D L) : Outcome Nat :=
-  match Selecting.candidates env s sh with
-  | .ok cs =>
-    if sh.options.candidatesPerPage == 0 then .panic "div-ceil-zero"
-    else .ok ((cs.length + sh.options.candidatesPerPage - 1) / sh.options.candidatesPerPage)
-  | .panic p => .panic p
-  | .outOfFuel => .outOfFuel
-
 /-- the candidate index addressed by choosing `n` on the current page:
     `page_no.saturating_mul(candidates_per_page).saturating_add(n)` (`usize`).  A saturated index is
     `usize::MAX`, which no `Vec` or `str` can reach, so it is out of range like any other. -/
@@ -1011,6 +1028,14 @@ def selDownSpace (s : Selecting) (sh : Shared D L) : Outcome (SelRes D L) :=
   | .panic q => .panic q
   | .outOfFuel => .outOfFuel
 
+/-- the end of the `j` / `k` arms: `if self.total_page(..) == 0 { shared.cancel_selecting(); return
+    self.start_entering() }` — a list without candidates (a syllable without a word) is closed -/
+def closeIfEmpty (r : SelRes D L) : Outcome (SelRes D L) :=
+  match Selecting.totalPage env r.sel r.shared with
+  | .ok tp => if tp == 0 then .ok ⟨Shared.cancelSelecting r.shared, r.sel, .toState .entering⟩ else .ok r
+  | .panic q => .panic q
+  | .outOfFuel => .outOfFuel
+
 /-- `j` / `k`: move the selection to the previous / next symbol -/
 def selMove (s : Selecting) (sh : Shared D L) (isJ : Bool) : Outcome (SelRes D L) :=
   if sh.com.isEmpty then .ok ⟨sh, s, .spin .ignore⟩
@@ -1021,8 +1046,8 @@ def selMove (s : Selecting) (sh : Shared D L) (isJ : Bool) : Outcome (SelRes D L
     let com := if isJ then sh.com.moveCursor (begin - 1)
                else (sh.com.moveCursor (begin + 1)).clampCursor
     match retarget env s { sh with com := com } with
-    | .ok (sh', .toState (.selecting s')) => .ok ⟨sh', s', .spin .absorb⟩
-    | .ok (sh', _) => .ok ⟨sh', s, .spin .absorb⟩
+    | .ok (sh', .toState (.selecting s')) => closeIfEmpty env ⟨sh', s', .spin .absorb⟩
+    | .ok (sh', _) => closeIfEmpty env ⟨sh', s, .spin .absorb⟩
     | .panic q => .panic q
     | .outOfFuel => .outOfFuel
 
